@@ -284,3 +284,9 @@ h_c12._register_eager()
 # the 5-id universe (16 partitions) is run under C12 only (soundness and completeness are checked together there)
 for _n in [n for n in REG.conds if "ids01234" in n]:
     del REG.conds[_n]
+
+# dropped from the thorough tier (nondeterministic sampling over 2 ids and directed all-pairs conditions that ran past 40-60 min; see DESIGN.md 12.9)
+import re as _re  # noqa: E402
+for _n in [n for n, c in REG.conds.items() if c.tier == "thorough" and _re.search(r"^sample_._0[35]_ids01$|^allpairs_d_", n)]:
+    del REG.conds[_n]
+
